@@ -91,6 +91,22 @@ func runThorough(a *Analysis, reg *Registry, ri *RunInfo, prop, repo, verif stri
 		}
 		entries = append(entries, catEntry{ID: "seed:" + filepath.Base(filepath.Dir(s)), Kind: "mutant", diff: s})
 	}
+	// stored behaviour-preserving refactorings (sub-agent produced, each with an
+	// equivalence test): the checks they name must stay silent on them
+	refs, _ := filepath.Glob(filepath.Join(verif, "refactors", "*", "patch.diff"))
+	sort.Strings(refs)
+	for _, s := range refs {
+		mb, _ := os.ReadFile(filepath.Join(filepath.Dir(s), "meta.json"))
+		var meta struct {
+			Checks []string `json:"checks"`
+		}
+		json.Unmarshal(mb, &meta)
+		for _, c := range meta.Checks {
+			if c == prop {
+				entries = append(entries, catEntry{ID: "refactoring:" + filepath.Base(filepath.Dir(s)), Kind: "refactor", diff: s})
+			}
+		}
+	}
 	if len(entries) == 0 {
 		reg.Notes = append(reg.Notes, "thorough: no catalogue entries for "+prop)
 		return
